@@ -89,6 +89,16 @@ def defuzz_long_lived(fl, T, case):
 
 def check_case(ctx, fl, T, c, where):
     kind, val, agg = defuzz(fl, T, c)
+    # crisp degrees given as integers (Python ints, integer numpy scalars, one integer batch row): the numbers are the same
+    fds = [to_float(a["d"]) for a in c["acts"]]
+    if fds and all(d in (0.0, 1.0) for d in fds):
+        for label, ds_ in (("python-int", [int(d) for d in fds]), ("numpy-int", [np.int64(d) for d in fds]), ("integer-batch", [np.array([int(d), int(d)]) for d in fds])):
+            ki, vi, _ = defuzz(fl, T, c, degrees=ds_)
+            ctx.count()
+            same = ki == kind and (kind != "value" or all(feq(float(x), float(np.asarray(val)), 1e-12) for x in np.atleast_1d(np.asarray(vi, dtype=float))))
+            if not same:
+                ctx.violation(f"{where}/integer-degrees/{label}/{c['cls']}", {k: c[k] for k in ("acts", "aggr", "type", "cls")}, val if kind != "value" else float(np.asarray(val)),
+                              vi if ki != "value" else np.asarray(vi, dtype=float).tolist(), note=f"degrees given as {label} give another result than the same degrees as floats")
     k2, v2 = defuzz_long_lived(fl, T, c)
     ctx.count(2)
     if k2 != kind or (kind == "value" and not feq(float(np.asarray(val)), float(np.asarray(v2)), 0.0)):
